@@ -252,3 +252,25 @@ PROPS['C17']['note'] = ('NOT decided: that EVERY grammar string parses to its de
                         'necessary, not sufficient) and behaviour on strings outside the grammar beyond not panicking.')
 PROPS['C17']['technique'] = 'call-graph may-panic enumeration + dominator-based interval refinement + symbolic execution of one loop step (transition lemmas)'
 PROPS['C18']['text'] += ' R3: zero stays zero (the C05.R1/R2 model) is now also an obligation of this check.'
+
+# ---- refinements after the normalisation layer and the third seeded round ------------------------------------------
+
+PROPS['C06']['text'] += (' R5 also requires that, inside the proposal loop, the score handed to the decision as the current one takes the '
+                         'accepted payload (a score frozen at the loop start compares later proposals with a stale value).')
+PROPS['C05']['text'] += ' (R4 thereby includes the compared-score obligation of C06.R5.)'
+PROPS['C07']['text'] += (' R6: "worse by d" is measured against the running score: the C06.R5 bookkeeping obligations are imported. The decision '
+                         'is located by meaning (the call that receives the proposal\'s State::score(), as an argument or as a field of a '
+                         'struct-literal argument, and returns Option<f64> or a two-variant accept/reject enum).')
+PROPS['C09']['text'] += (' R5 also lists order-dependent parallel reductions reachable from the seeded paths (ParallelIterator sum/product of '
+                         'floats, reduce, fold, find_any): their result depends on how rayon splits the work.')
+PROPS['C18']['text'] += (' R1: exactly one update kT <- kT * stored factor per way round the outer loop, outside the inner loop, and the decision '
+                         'reads kT before the update of its own outer iteration (a read after it shifts the schedule by one); a schedule written '
+                         'as `zip` with `iter::successors` is read as the same state variable (pk/loopform.py).')
+PROPS['C20']['text'] += (' Overflow checks on collection-size arithmetic are discharged by exact integer intervals (pk/sizes.py: allocation bound '
+                         'len <= isize::MAX / size_of, owned-length sums, accumulators over range loops); `clamp` and integer `pow` are '
+                         'panic-capable calls; a bounds check / explicit assert whose condition is decided by the function\'s own constants is '
+                         'discharged by evaluating the enclosing function on every path (never when an uninterpreted call received a &mut).')
+for _p in PROPS.values():
+    if 'technique' in _p and 'normal form' not in _p['technique']:
+        _p['technique'] += '; decided on a normal form of the MIR (helper splicing, jump threading, loop/nest form, SROA; DESIGN section 11)'
+
